@@ -45,3 +45,17 @@ func TestC04_KNOWN_MapOrderErrors(t *testing.T) {
 		}
 	}
 }
+
+// Known finding C17 (pinned by the upstream fixture template_tests/filters.tpl): escapejs treats the two
+// characters backslash + 'r' / 'n' of its INPUT as an escape sequence and emits \u000D / \u000A, so the
+// output does not decode to the input's characters.
+func TestC17_KNOWN_EscapejsBackslashSequences(t *testing.T) {
+	out, err := render(t, newSet(nil), `{{ s|escapejs|safe }}`, pongo2.Context{"s": `a\rb\nc`})
+	if err != nil {
+		t.Fatal(err)
+	}
+	want := `a\rb\nc`
+	if out != want {
+		t.Logf("KNOWN FINDING: %q|escapejs = %q, decoding it gives CR/LF instead of the input's backslash sequences (want %q)", `a\rb\nc`, out, want)
+	}
+}
